@@ -139,7 +139,7 @@ Print Assumptions C14_partial_coarse_fragment.
 From CGV Require Import Reader.ReaderImpl Reader.Grammar Reader.Lin Reader.ReaderCheck
      Resolve.GraphOps Resolve.Pipeline Resolve.CopyProofs
      Frag.NDict Frag.StripImpl Frag.FragText Hydro.Hydrogens Hydro.Fragments
-     Hydro.SquashDefs Hydro.HydroDefs Resolve.PipelineFull Compose.CutModel Compose.CutHydrogens Reader.ReaderUnit Frag.SmilesParse Frag.SmilesSpec Frag.Template Frag.TemplateProofs Dialect.ReturnedAnnot Dialect.ReturnedCar Dialect.ReturnedExample Dialect.ReturnedCoarse Dialect.TextAnnot Dialect.CoarseTextAnnot Write.FragRead Dialect.BaseAnnotUnits Dialect.MachineAnnot Dialect.BaseAnnot Dialect.FragAnnot Dialect.CopyAnnot Dialect.TemplateAnnot.
+     Hydro.SquashDefs Hydro.HydroDefs Resolve.PipelineFull Compose.CutModel Compose.CutHydrogens Reader.ReaderUnit Frag.SmilesParse Frag.SmilesSpec Frag.Template Frag.TemplateProofs Dialect.ReturnedAnnot Dialect.ReturnedCar Dialect.ReturnedExample Dialect.ReturnedCoarse Dialect.TextAnnot Dialect.CoarseTextAnnot Dialect.CoarseChainAnnot Dialect.CoarsePartial Write.FragRead Dialect.BaseAnnotUnits Dialect.MachineAnnot Dialect.BaseAnnot Dialect.FragAnnot Dialect.CopyAnnot Dialect.TemplateAnnot.
 Open Scope Z_scope.
 
 (** ---- base graph ---- *)
@@ -486,6 +486,48 @@ Example C14_coarse_text_nonvacuous :
   end.
 Proof. exact coarse_text_example. Qed.
 
+(** the node-level model of a coarse node inside a fragment definition ([coarse_fragment_node], compared with the
+    implementation per node on every run) IS what the graph-level model puts on the template node, for fragment
+    definitions that are chains of annotated coarse nodes joined by bond symbols, with any descriptors anywhere (clean
+    text through strip_correct, read_cgsmiles on it through the reader component's reader_sim_lin_nobrace) ... *)
+Theorem C14_base_annotation_flat_nobrace : forall fo l g, lins_ok fo l = true ->
+  read_cgsmiles fo (lins_str l) = Ok g -> annotated_as fo g (node_texts (lins_toks l)).
+Proof. exact base_annotation_flat_nobrace. Qed.
+Theorem C14_coarse_chain_template_node : forall fo F l dc T,
+  FragText.wf (ctoks l) dc = true -> excluded (ctoks l) dc = false ->
+  lins_ok fo (clins l) = true ->
+  Forall (fun xo => ~ In ";"%char (fst (fst xo))) l ->
+  read_coarse_fragment fo F (FragText.render (decorate (ctoks l) dc)) = Ok T ->
+  forall j x o key, nth_error l j = Some (x, o) -> ~ In key coarse_written ->
+    exists a, coarse_fragment_node fo (cn_text x) = Ok a /\ node_get T (Z.of_nat j) key = aget key a.
+Proof. exact coarse_chain_template_node. Qed.
+(** ... so C14_partial holds on the TEMPLATE node: outside the defect class it carries charge 0.0, the written weight or
+    1.0 and its free keys *)
+Theorem C14_partial_on_template : forall fo F l dc T,
+  FragText.wf (ctoks l) dc = true -> excluded (ctoks l) dc = false ->
+  lins_ok fo (clins l) = true ->
+  Forall (fun xo => ~ In ";"%char (fst (fst xo))) l ->
+  read_coarse_fragment fo F (FragText.render (decorate (ctoks l) dc)) = Ok T ->
+  forall j x o name kws xw, nth_error l j = Some (x, o) -> cn_text x = DialectDefs.render [name] kws ->
+    clean name = true -> name <> [] ->
+    Forall (fun kv => clean_entry kv = true) kws -> NoDup (keys kws) ->
+    (forall k, In k (keys kws) -> ~ In k outside_names) ->
+    w_value fo kws = Some xw ->
+    node_get T (Z.of_nat j) (S "charge") = Some (VFlt (S "0.0")) /\
+    node_get T (Z.of_nat j) (S "weight") = Some xw /\
+    forall k v, In (k, v) kws -> k <> S "w" -> ~ In k coarse_written -> node_get T (Z.of_nat j) k = Some (VStr v).
+Proof. exact coarse_chain_partial. Qed.
+Example C14_coarse_chain_nonvacuous :
+  FragText.render (decorate (ctoks exch) exch_dc) = S "[$][#X;w=2;k=v]=[#Y][$]" /\
+  FragText.wf (ctoks exch) exch_dc = true /\ excluded (ctoks exch) exch_dc = false /\ lins_ok exc_fo (clins exch) = true /\
+  cn_text (S "X", Some (S "w=2;k=v")) = DialectDefs.render [S "X"] [(S "w", S "2"); (S "k", S "v")] /\
+  match read_coarse_fragment exc_fo (S "F") (FragText.render (decorate (ctoks exch) exch_dc)) with
+  | Ok T => (node_get T 0 (S "charge"), node_get T 0 (S "weight"), node_get T 0 (S "k"))
+            = (Some (VFlt (S "0.0")), Some (VFlt (S "2.0")), Some (VStr (S "v")))
+  | Err _ => False
+  end.
+Proof. exact coarse_chain_example. Qed.
+
 (** non-vacuity *)
 Example C14_base_annotation_nonvacuous :
   let fo := fo_of_table [(S "1", Some (S "1.0")); (S "2", Some (S "2.0"))] in
@@ -514,6 +556,10 @@ Print Assumptions C14_coarse_text_annotation_on_template.
 Print Assumptions C14_coarse_template_exact.
 Print Assumptions C14_coarse_text_annotation_reaches_returned_graph.
 Print Assumptions C14_coarse_text_nonvacuous.
+Print Assumptions C14_base_annotation_flat_nobrace.
+Print Assumptions C14_coarse_chain_template_node.
+Print Assumptions C14_partial_on_template.
+Print Assumptions C14_coarse_chain_nonvacuous.
 Print Assumptions C14_text_annotation_reaches_returned_graph.
 Print Assumptions C14_text_annotation_not_gained.
 Print Assumptions C14_template_exact.
